@@ -367,6 +367,10 @@ def _attr_chain(e):
     return isinstance(e, ast.Name)
 
 
+import builtins as _builtins
+_BUILTIN_NAMES = frozenset(dir(_builtins))
+
+
 def resolve_helper(R, f, call):
     """repository function called by `call` inside Func f: module function by name, nested def, self./cls./Class. method"""
     from .repo import Func
@@ -375,6 +379,8 @@ def resolve_helper(R, f, call):
         q = R.chase(f.mod, fn.id)
         if q in R.funcs and R.funcs[q].cls is None:
             return R.funcs[q], 0
+        if fn.id in _BUILTIN_NAMES:
+            return None, 0
         for n in ast.walk(f.node):
             if isinstance(n, ast.FunctionDef) and n.name == fn.id and n is not f.node:
                 return Func(f.mod, None, n, f.path), 0
@@ -394,6 +400,13 @@ def resolve_helper(R, f, call):
                 h = R.funcs[q]
                 skip = 0 if h.is_static else 1
                 return h, skip
+        # (no class of the repository defines a method of this name: nothing below can resolve it)
+        mnames = getattr(R, "_method_names", None)
+        if mnames is None or getattr(R, "_method_names_n", -1) != len(R.funcs):
+            mnames = {g.name for g in R.funcs.values() if g.cls}
+            R._method_names, R._method_names_n = mnames, len(R.funcs)
+        if fn.attr not in mnames:
+            return None, 0
         # t.m(...) with t a local bound once to a construction K(..) of a repository class: the method of K
         if cq is None and base not in ("self", "cls"):
             binds = [n for n in ast.walk(f.node) if isinstance(n, ast.Name) and n.id == base and isinstance(n.ctx, (ast.Store, ast.Del))]
